@@ -2,7 +2,7 @@
 import ast
 
 from .absint import Domain, Interp, NORMAL, RETURN, BREAK, CONTINUE, RAISE, is_raise
-from .astutil import method_call, unparse, is_self_call, enclosing, parent, kwarg, in_subtree
+from .astutil import method_call, unparse, is_self_call, enclosing, parent, kwarg, in_subtree, keytext
 from .deps import DepDomain, fs
 from .index import dotted, walk_local
 from .loader import AnalysisError
@@ -100,7 +100,7 @@ def send_discipline_facts(run, cls):
                     why = "the deleted prefix length `%s` is not the value returned by self.send(self.txbs)" % sl.upper.id
             else:
                 why = "txbs is trimmed by `%s`, not by the prefix [:count] that send() reported" % unparse(node)
-        facts.append(("serviceSends:trim:%s" % _shape(node), ok, run.site(ss, node), "" if ok else why))
+        facts.append(("serviceSends:trim:%s" % keytext(ss, node), ok, run.site(ss, node), "" if ok else why))
         ok_all = ok_all and ok
     if not muts:
         facts.append(("serviceSends:trim-present", False, run.site(ss), "serviceSends never removes sent bytes from txbs"))
@@ -531,23 +531,46 @@ def connection_containers(run, cls):
     ix = run.ix
     remoter = ix.cls(SM, "Remoter")
     out = {}
-    for k in cls.mro:
-        for name, f in k.methods.items():
-            if ix.resolve_method(cls, name) is not f:
+
+    def element_vars(f, conts):
+        """locals bound to the values of a known connection container by `for k, v in self.C.items()` / `for v in self.C.values()`"""
+        names = set()
+        for loop in walk_local(f.node):
+            if not isinstance(loop, ast.For):
                 continue
-            ltypes = ix.local_types(f)
-            for n in walk_local(f.node):
-                if isinstance(n, ast.Assign) and isinstance(n.targets[0], ast.Subscript):
-                    base = n.targets[0].value
-                    d = dotted(base)
-                    if d and d.startswith("self.") and d.count(".") == 1:
-                        v = n.value
-                        is_conn = False
-                        if isinstance(v, ast.Name):
-                            tys = ltypes.get(v.id, set())
-                            is_conn = any(remoter in t.mro for t in tys) or v.id in ("cx", "ix", "remoter")
-                        if is_conn:
-                            out.setdefault(d.split(".")[1], []).append((f, n))
+            for a in ast.walk(loop.iter):
+                if isinstance(a, ast.Call) and isinstance(a.func, ast.Attribute) and a.func.attr in ("items", "values"):
+                    d = dotted(a.func.value)
+                    if d and d.startswith("self.") and d.split(".", 1)[1] in conts:
+                        t = loop.target
+                        if a.func.attr == "items" and isinstance(t, ast.Tuple) and len(t.elts) == 2 and isinstance(t.elts[1], ast.Name):
+                            names.add(t.elts[1].id)
+                        if a.func.attr == "values" and isinstance(t, ast.Name):
+                            names.add(t.id)
+        return names
+
+    changed = True
+    while changed:
+        changed = False
+        for k in cls.mro:
+            for name, f in k.methods.items():
+                if ix.resolve_method(cls, name) is not f:
+                    continue
+                ltypes = ix.local_types(f)
+                elems = element_vars(f, out)
+                for n in walk_local(f.node):
+                    if isinstance(n, ast.Assign) and isinstance(n.targets[0], ast.Subscript):
+                        base = n.targets[0].value
+                        d = dotted(base)
+                        if d and d.startswith("self.") and d.count(".") == 1:
+                            v = n.value
+                            is_conn = False
+                            if isinstance(v, ast.Name):
+                                tys = ltypes.get(v.id, set())
+                                is_conn = any(remoter in t.mro for t in tys) or v.id in elems
+                            if is_conn and (f, n) not in out.get(d.split(".")[1], []):
+                                out.setdefault(d.split(".")[1], []).append((f, n))
+                                changed = True
     return out
 
 
@@ -742,13 +765,18 @@ def replace_delete_facts(run, cls, containers):
         res = Interp(dom, run.lat).run(f.node)
         run.paths += len(res)
         seen = {}
+        pset = set(f.params()[0]) | set(f.params()[1])
+
+        def keyname(key):
+            # obligation keys never contain the spelling of a local: parameters are part of the interface, locals are `<key>`
+            return key if key in pset or not key.isidentifier() else "<key>"
         for cont, key, st, node in dom.stores:
             attr = cont.split(".", 1)[1]
             if attr not in containers:
                 continue
             ok = ("absent", cont, key) in st or ("closed", cont, key) in st or \
                 ("absent-or-same", cont, key, unparse(node.value)) in st
-            k = (f.fq, "store:%s[%s]" % (cont, key))
+            k = (f.fq, "store:%s[%s]" % (cont, keyname(key)))
             seen[k] = seen.get(k, True) and ok
             seen[(k, "node")] = node
         for cont, key, st, node in dom.dels:
@@ -780,7 +808,7 @@ def replace_delete_facts(run, cls, containers):
                             fi, dflt = _param_default(f, prev.test.id)
                             param_guard = getattr(dflt, "value", None) is True
             ok = closed or moved or param_guard
-            k = (f.fq, "del:%s[%s]" % (cont, key))
+            k = (f.fq, "del:%s[%s]" % (cont, keyname(key)))
             seen[k] = seen.get(k, True) and ok
             seen[(k, "node")] = node
         for k, ok in seen.items():
